@@ -3,7 +3,7 @@
 [ -n "$VP_RUN_REPO" ] && [ ! -e ../repo ] && ln -s "$VP_RUN_REPO" ../repo
 ls -la .. | head
 ./check --setup > setup.log 2>&1 || { tail -20 setup.log; exit 2; }
-for s in 11 12 13; do
+for s in ${SWEEP_SEEDS:-11 12 13}; do
   for p in C01 C02 C03 C04 C05 C06 C07 C08 C09 C10 C11 C12 C13 C14 C15 C16 C17 C18 C19 C20; do
     VERIF_SEED=$s ./check $p --tier quick > out_${p}_$s.log 2>&1
     echo "seed=$s $p rc=$? $(tail -1 out_${p}_$s.log | cut -c1-160)"
